@@ -276,6 +276,8 @@ func goTypeData(r *prng.Rand, typ int, text bool) []byte {
 				return model.NewSeq(model.Struct, model.NewInt(int64(r.Intn(90))).Named(model.T("deg")))
 			}
 			v = model.NewSeq(model.Struct, t().Named(model.T("t")), t().Named(model.T("p")), model.NewSeq(model.List, t()).Named(model.T("l")))
+		case 19:
+			v = model.NewSeq(model.Struct, model.NewString("n").Named(model.T("name")), model.NewInt(3).Named(model.T("age")))
 		case 18:
 			v = model.NewSeq(model.Struct, model.NewInt(0).Named(model.T("v")))
 			for d := r.Range(100, 300); d > 0; d-- {
